@@ -166,6 +166,11 @@ def make_strategy(script: dict):
             ae = self.s.get('abs_exits')
             if ae and not (ae[0] * 1.002 < self.price < ae[1] * 0.998):
                 return 2.0
+            if self.s.get('decide_on_ohl'):
+                # the decision depends on the shape of the current trading candle (open / high / low), not only on closes
+                c = self.current_candle
+                shape = (bool(c[2] >= c[1]), int((c[3] - c[4]) / c[2] * 2000), int(abs(c[1] - c[2]) / c[2] * 2000))
+                return _u(self.s['seed'], self.index, 'enter', shape)
             return _u(self.s['seed'], self.index, 'enter')
 
         def should_long(self):
